@@ -51,8 +51,7 @@ def judge_sign(case, obs):
     if "address" in o["ok"] and (o["ok"]["address"] != eth.address_of_key(x) or o["ok"].get("pub65") != secp.ser_uncompressed(pub).hex()):
         v.bad("C05/%s/signer-identity" % cls, "the signing key reports address %s / another public key than the one the signature recovers to (%s)" % (
             o["ok"]["address"], eth.address_of_key(x)))
-    if sig["text"] != eth.sig_text(r, s, par):
-        v.bad("C05/%s/text" % cls, "text form %s differs from 0x r s v" % sig["text"])
+    # (the text form of a signature is C15's subject and is judged there, not here)
     if z < N:
         er, es, epar, high = secp.sign_rfc6979(x, d)
         if (r, s, par) != (er, es, epar):
@@ -65,6 +64,8 @@ def judge_sign(case, obs):
     for name, val in (("digest=0", 0), ("digest=1", 1), ("digest=n-1", N - 1), ("digest=n", N), ("digest=n+1", N + 1), ("digest=2^256-1", 2**256 - 1)):
         if z == val:
             v.bucket(name)
+    from .. import txgen
+    txgen.sig_shape_buckets(v, r, s)
     if case["x"].get("rand"):
         v.bucket("digest>=n-random" if z >= N else "digest<n-random")
     if x == 1:
@@ -91,6 +92,10 @@ def gen(shard, rng, tier):
         for x in (1, 2, N - 1, N - 2, 0x4F3EDF983AC636A65A842CE7C78D9AA706D3B113BCE9C46F30D7D21715B23B1D):
             for z in special_d:
                 yield from case(x, z.to_bytes(32, "big"), "boundary")
+    if shard.get("first"):
+        from .. import txgen
+        for e in txgen.rare_sigs():
+            yield from case(txgen.RARE_KEY, bytes.fromhex(e["digest"]), "rare-sig-shape")
     pool_x, pool_d = [], []
     if shard.get("first"):
         # consecutive calls in one process whose inputs nearly collide: same digest under two keys whose addresses / public keys share
